@@ -385,9 +385,14 @@ impl ViCut {
 	/// is abandoned like any other operator: nothing is taken and no text is typed.
 	/// (Motions that merely cannot go further, like 'cl' on an empty line, still open the text.)
 	fn change_is_abandoned(&mut self, cmd: &ViCmd) -> bool {
-		if !cmd.verb().is_some_and(|v| matches!(v.1, Verb::Change)) {
+		cmd.verb().is_some_and(|v| matches!(v.1, Verb::Change)) && self.operator_motion_fails(cmd)
+	}
+
+	/// The motion of this operator command fails where the cursor is, so the command does nothing
+	fn operator_motion_fails(&mut self, cmd: &ViCmd) -> bool {
+		let Some(verb) = cmd.verb().map(|v| v.1.clone()) else {
 			return false
-		}
+		};
 		let can_fail = |m: &MotionCmd| matches!(m.1,
 			Motion::CharSearch(..) |
 			Motion::WordMotion(..) |
@@ -410,7 +415,7 @@ impl ViCut {
 			return false
 		};
 		let saved_col = self.current_buffer().saved_col;
-		let fails = matches!(self.current_buffer().eval_motion(Some(&Verb::Change), motion), MotionKind::Null);
+		let fails = matches!(self.current_buffer().eval_motion(Some(&verb), motion), MotionKind::Null);
 		self.current_buffer().saved_col = saved_col;
 		fails
 	}
@@ -507,7 +512,8 @@ impl ViCut {
 
 		std::mem::swap(&mut mode, &mut self.mode);
 
-		if mode.is_repeatable() {
+		// Leaving a mode that recorded nothing (a selection given up with <esc>) leaves the last change alone
+		if mode.is_repeatable() && mode.as_replay().is_some() {
 			self.repeat_action = mode.as_replay();
 			// '.' repeats the whole session: the command that opened it, then what was typed
 			if let Some(CmdReplay::ModeReplay { cmds, .. }) = self.repeat_action.as_mut() {
@@ -665,7 +671,9 @@ impl ViCut {
 
 		}
 
-		if cmd.is_repeatable() {
+		// A command whose motion fails ('dfx' without an x) does nothing and is not what '.' repeats
+		let failed = cmd.is_repeatable() && self.mode.report_mode() == ModeReport::Normal && self.operator_motion_fails(&cmd);
+		if cmd.is_repeatable() && !failed {
 			if self.mode.report_mode() == ModeReport::Visual {
 				// The motion is assigned in the line buffer execution, so we also have to assign it here
 				// in order to be able to repeat it
